@@ -121,6 +121,8 @@ class Exporter:
                     f"{clist(fs, lambda kv: f'({cstr(kv[0])}, {self.value_term(kv[1])})', 'str * value')})")
         if dataclasses.is_dataclass(v) and not isinstance(v, type):
             raise Unsupported(f"dataclass {type(v)} not in universe")
+        if isinstance(v, tuple) and hasattr(v, "_fields"):      # XmlDate & co are NamedTuples
+            return f"(VP {self.prim(v)})"
         if isinstance(v, (list, tuple)):
             return f"(VList {cbool(isinstance(v, tuple))} {clist(v, self.value_term, 'value')})"
         if isinstance(v, dict):
@@ -221,6 +223,8 @@ class Exporter:
     def wval(self, v):
         if v is None:
             return "WNone"
+        if isinstance(v, tuple) and hasattr(v, "_fields"):
+            return f"(WP {self.prim(v)})"
         if isinstance(v, (list, tuple)):
             return f"(WL {clist(v, self.wval, 'wval')})"
         return f"(WP {self.prim(v)})"
